@@ -674,6 +674,7 @@ def _tab(run, modname, fname, two=False, mc=False):
     else:
         env = TabularScriptEnv(tr, nS, nA, c["script"], seed=c["seed"])
         env.self_loop_p = float(c.get("self_loop_p", 0.0))
+        env.fixed_start_p = float(c.get("fixed_start_p", 0.0))
     run.env = env
     run.envs = [env]
     rng = np.random.default_rng(c["seed"] + 7)
